@@ -384,6 +384,10 @@ func mutexUnlock(i *interpreter, fr *frame, fn *ssa.Function, args []value) valu
 	delete(i.w.held, p)
 	delete(i.w.heldBy, p)
 	i.progress++
+	// schedules at critical-section granularity: the moment right AFTER a
+	// critical section is a decision point too (what a goroutine does with a
+	// value it read inside, once others may run: atomicity gaps after release)
+	i.maybePreempt(p)
 	return nil
 }
 
